@@ -1,11 +1,22 @@
 package keeper
 
 import (
+	"math/big"
+
 	"github.com/armon/go-metrics"
 	"github.com/chain4energy/c4e-chain/x/cfedistributor/types"
 	"github.com/cosmos/cosmos-sdk/telemetry"
 	sdk "github.com/cosmos/cosmos-sdk/types"
 )
+
+// telemetryAmount converts an amount for the telemetry gauge without panicking on amounts above the int64 range.
+func telemetryAmount(amount sdk.Int) float32 {
+	if amount.IsInt64() {
+		return float32(amount.Int64())
+	}
+	f, _ := new(big.Float).SetInt(amount.BigInt()).Float32()
+	return f
+}
 
 func calculatePercentage(sharePercent sdk.Dec, coinsToDistributeDec sdk.DecCoins) sdk.DecCoins {
 	if !coinsToDistributeDec.IsAllPositive() {
@@ -139,7 +150,7 @@ func (k Keeper) burnCoins(ctx sdk.Context, state *types.State) {
 		k.Logger(ctx).Debug("Coins burned", "coins", toSend)
 		defer telemetry.SetGaugeWithLabels(
 			[]string{types.ModuleName, "coin_send", types.BurnDestination},
-			float32(toSend.AmountOf(types.DenomToTrace).Int64()),
+			telemetryAmount(toSend.AmountOf(types.DenomToTrace)),
 			[]metrics.Label{telemetry.NewLabel("denom", types.DenomToTrace)},
 		)
 		state.Remains = change
@@ -155,7 +166,7 @@ func (k Keeper) sendCoinsToModuleAccount(ctx sdk.Context, state *types.State) {
 		k.Logger(ctx).Debug("coins sent to module account dst", "accountId", state.Account.Id, "toSend", toSend.String())
 		defer telemetry.SetGaugeWithLabels(
 			[]string{types.ModuleName, "coin_send", state.Account.Id},
-			float32(toSend.AmountOf(types.DenomToTrace).Int64()),
+			telemetryAmount(toSend.AmountOf(types.DenomToTrace)),
 			[]metrics.Label{telemetry.NewLabel("denom", types.DenomToTrace)},
 		)
 		state.Remains = change
@@ -173,7 +184,7 @@ func (k Keeper) sendCoinsToBaseAccount(ctx sdk.Context, state *types.State) {
 		k.Logger(ctx).Debug("coins sent to base account dst", "accountId", state.Account.Id, "toSend", toSend)
 		defer telemetry.SetGaugeWithLabels(
 			[]string{types.ModuleName, "coin_send", state.Account.Id},
-			float32(toSend.AmountOf(types.DenomToTrace).Int64()),
+			telemetryAmount(toSend.AmountOf(types.DenomToTrace)),
 			[]metrics.Label{telemetry.NewLabel("denom", types.DenomToTrace)},
 		)
 		state.Remains = change
